@@ -22,7 +22,7 @@ CLAIMS = {
     "C03": (MC, "TLC-enumerated, random and killer automata replayed on libvata (API, ask-twice mode, vata CLI); TLA+ trace validation against TA!Trim / TopReach / Empty; laws arm; TLC model check of both trimmers as work-list machines (all pop orders, mutants refuted)",
             "RemoveUnreachableStates, RemoveUselessStates and IsLangEmpty are run on the single automata of bound B1' and random ones; TLC decides language "
             "preservation, the reachability / usefulness postconditions and the emptiness verdict.", "Trusted: TLC, Layer-0 oracle, driver read-back.", "DESIGN.md §4 C03"),
-    "C04": (MC, "TLC-enumerated and random automata under random dense numberings replayed on libvata; relations compared entry by entry with the greatest fixpoints TA!DownSim / TA!UpSim",
+    "C04": (MC, "TLC-enumerated, random, FAN and WIDE automata under random dense numberings replayed on libvata (API, vata CLI); relations compared entry by entry with the greatest fixpoints TA!DownSim / TA!UpSim; TLC model check of both tree-automaton -> LTS encodings (SimEnc: every automaton of the bound, every numbering, mutants refuted) bound to the code by TLA+ trace validation of the LTS the real translators build (TraceSimEnc)",
             "The relation returned by ComputeSimulation is read with get(q,r) for all q,r<n and compared with the spec's greatest downward simulation (every input) and "
             "greatest upward simulation (trimmed inputs) computed by TLC; numbering independence follows because every case is run under a random dense numbering.",
             "Trusted: TLC, the gfp definitions in spec/TA.tla (these are the property's own wording).", "DESIGN.md §4 C04"),
@@ -34,14 +34,14 @@ CLAIMS = {
     "C14": (MC, "TLC-enumerated and random automata x state/symbol maps replayed on libvata; result compared for set equality with TA!Image",
             "ReindexStates (weak translator with pre-filled partial map, functor, functor into a non-empty destination), CollapseStates and TranslateSymbols: TLC checks "
             "result = image exactly, and the contents of weak translators after the call.", "Trusted: TLC, driver read-back.", "DESIGN.md §4 C14"),
-    "C15": (MC, "TLC-enumerated and random automata replayed on libvata; TLA+ trace validation of GetCandidateTree's result",
+    "C15": (MC, "TLC-enumerated, random and killer automata (numberings up to SIZE_MAX, build-via-load, ask-twice) replayed on libvata; TLA+ trace validation of GetCandidateTree's result; TLC model check of the witness search as a work-list machine (Candidate: all pop and visit orders, mutants refuted) bound to the code by step-level trace validation (TraceCandidate)",
             "TLC decides L(W) within L(A) and W non-empty whenever A is.", "Trusted: TLC, Layer-0 oracle.", "DESIGN.md §4 C15"),
     "C09": (MC, "TLC-enumerated and random NFA pairs replayed on libvata under a per-case watchdog; verdicts judged by TLC against FA!FAIncl; TLC model check (safety + liveness) of the antichain algorithm with its memo over all pick orders",
             "Each NFA pair is run through the antichain and both congruence selections of the real CheckInclusion (several presentations and heap perturbations); TLC "
             "judges each verdict with the forward subset-construction fixpoint; hangs and crashes are violations. The FAAntichain Layer-2 model is checked for every "
             "pick order for exactness and termination.",
             "Trusted: TLC, the Layer-0 oracle (cross-checked against bounded word enumeration). Pointer-order dependent schedules of the implementation are sampled by heap perturbation only.", "DESIGN.md §4 C09"),
-    "C10": (MC, "TLC-enumerated and random NFAs replayed on libvata; results (DumpToString parsed back) judged by TLC against FA!FUnion / FProd / FRev / language equality",
+    "C10": (MC, "TLC-enumerated, random, HUB and killer NFAs replayed on libvata (API with pipelines, vata CLI with ordinary / suffixed / long state names); results judged by TLC against FA!FUnion / FProd / FRev / language equality; TLC model check of the constructions as work-list machines (FAOps: all pop orders, mutants refuted) bound to the code by step-level trace validation (TraceFAOps)",
             "Union, UnionDisjointStates, Intersection, Reverse, both trimmings and GetCandidateTree on enumerated and random NFAs (eps-accepting, several start states, "
             "one-sided start pairs); TLC decides the language contracts; a crash while dumping a result is a violation.",
             "Trusted: TLC, Layer-0 oracle, the Timbuk parser used for read-back (checked by C13).", "DESIGN.md §4 C10"),
@@ -62,7 +62,7 @@ CLAIMS = {
             "Every LTS of the bound with every partition and every reflexive-transitive block relation (plus random larger ones with parallel edges and truncated "
             "output size) is run through the real engine; TLC computes the greatest simulation inside the lifted preorder and compares all k*k entries.",
             "Trusted: TLC and the gfp definition (the property's wording).", "DESIGN.md §4 C16"),
-    "C17": (MC, "random MTBDD handle histories replayed on OndriksMTBDD<int>; sequential TLA+ trace validation (TraceMtbdd) of full value tables, default values and == after every step against the function semantics MTBDDSem",
+    "C17": (MC, "random and killer MTBDD handle histories (incl. spread physical variable indices beyond 16 bits, reused functor objects) replayed on OndriksMTBDD<int>; sequential TLA+ trace validation (TraceMtbdd) of full value tables, default values and == after every step against the function semantics MTBDDSem; TLC model check of the binary apply on node structures (Apply: memo, branching, reduction; two calls on one functor; mutants refuted)",
             "Every operation of the package (construction with don't-cares, apply1/2/3, Project, Rename, ExtendWith, GetMtbddForPrefix, copy, assign, destroy) is a "
             "spec action on functions [assignment -> value]; TLC accepts a recorded history only if after every step the logged 16-entry table of every live handle "
             "equals the spec function and == holds exactly between equal functions (canonicity).",
@@ -73,7 +73,7 @@ CLAIMS = {
             "its base size. The protocol itself is model-checked for all interleavings of mk/copy/assign(self)/apply/destroy over 3 handles.",
             "Trusted: TLC, the two read-only hook accessors. Double release that happens not to change a size/value is only caught by the model, not observed on the code "
             "(no sanitizer in this family).", "DESIGN.md §4 C18"),
-    "C07": (MC, "TLC-enumerated and random pairs rendered as Timbuk text, loaded into both BDD encodings and run through every selection; verdicts judged by TLC against TA!Incl (same oracle as the explicit encoding)",
+    "C07": (MC, "TLC-enumerated and random pairs rendered as Timbuk text, loaded into both BDD encodings and run through every selection (API, vata CLI); verdicts judged by TLC against TA!Incl (same oracle as the explicit encoding); agreement arm against the explicit encoding; TLC model check of the bottom-up upward antichain algorithm as repaired (InclUpBdd: every pair of the bound, every schedule, mutants incl. defect D9 refuted)",
             "For each pair the 6 implemented selections (BU upward, BU downward+simulation, TD downward with/without cache and with/without simulation) and 4 "
             "unimplemented probes are executed; TLC rejects any verdict that differs from the bottom-up macro-state fixpoint and any exception other than "
             "NotImplementedException from an implemented selection.",
